@@ -720,3 +720,185 @@ Example hdr_truncation_nonvacuous :
   = [IRec [120]; IErr EUnexpectedEOF; IErr EEOF] /\
   recv_all cfg_fixed Strict [] 0 (enc_hdr [] 3) = [IErr EEOF].
 Proof. vm_compute. auto. Qed.
+
+(* ---- C12: truncation anywhere inside a record (header block or payload) ---------------- *)
+
+Lemma hdr_loop_nil f ct cl : hdr_loop (S f) ct cl [] = HErr EEOF [].
+Proof. rewrite hdr_loop_S. reflexivity. Qed.
+
+Lemma trim_right_crlf_head c q : is_crlf c = false -> is_nil (trim_right_crlf (c :: q)) = false.
+Proof. intros H. cbn. destruct (trim_right_crlf q); [rewrite H|]; reflexivity. Qed.
+
+(* an unterminated, non-blank last line: an error (invalid header line, or io.EOF on the next read) *)
+Lemma hdr_loop_partial f ct cl c q :
+  ~ In 10 (c :: q) -> is_crlf c = false -> exists e, hdr_loop (S (S f)) ct cl (c :: q) = HErr e [].
+Proof.
+  intros Hn Hc. rewrite hdr_loop_S. rewrite read_string_nodelim by assumption.
+  cbn [negb andb is_nil]. rewrite trim_right_crlf_head by assumption.
+  destruct (split_colon _) as [[name value]|]; [|eauto].
+  destruct (beq _ _); [rewrite hdr_loop_nil; eauto|]. destruct (beq _ _); rewrite hdr_loop_nil; eauto.
+Qed.
+
+(* a header line  b CR LF  followed by X, cut at some point: either the cut is inside the line (error),
+   or the line is complete and the cut is in X *)
+Lemma hdr_loop_cut_line f ct cl c0 b' X pre l :
+  is_crlf c0 = false -> ~ In 10 (c0 :: b') ->
+  ((c0 :: b') ++ [13; 10]) ++ X = pre ++ l -> l <> [] -> pre <> [] -> (length pre < f)%nat ->
+  (exists e, hdr_loop f ct cl pre = HErr e []) \/
+  (exists pre', pre = ((c0 :: b') ++ [13; 10]) ++ pre' /\ X = pre' ++ l).
+Proof.
+  intros Hc Hn E Hl Hp Hf. apply app_eq_app in E. destruct E as [m [[E1 E2]|[E1 E2]]].
+  - destruct m as [|m0 m'] eqn:Em.
+    + right. exists []. rewrite app_nil_r in E1. rewrite app_nil_r. cbn in E2. subst. auto.
+    + left. rewrite <- Em in *. assert (Hm : m <> []) by (subst; discriminate).
+      rewrite (app_removelast_last 0 Hm) in E1.
+      replace ((c0 :: b') ++ [13; 10]) with (((c0 :: b') ++ [13]) ++ [10]) in E1 by (rewrite <- app_assoc; reflexivity).
+      rewrite app_assoc in E1. apply app_inj_tail in E1. destruct E1 as [E1 _].
+      assert (Hnp : ~ In 10 pre).
+      { intros Hx. assert (Hy : In 10 ((c0 :: b') ++ [13])) by (rewrite E1; apply in_or_app; now left).
+        apply in_app_or in Hy. destruct Hy as [Hy|[Hy|[]]]; [auto|discriminate]. }
+      destruct pre as [|x q]; [congruence|]. cbn in E1. inversion E1; subst x.
+      destruct f as [|[|f']]; cbn [length] in Hf; try lia.
+      now apply hdr_loop_partial.
+  - right. exists m. auto.
+Qed.
+
+(* the Content-Length line and the blank line, cut *)
+Lemma cut_cl f ct n pre l :
+  (length pre < f)%nat -> s_content_length_hdr ++ itoa n ++ crlf ++ crlf = pre ++ l -> l <> [] ->
+  (exists e, hdr_loop f ct [] pre = HErr e []) \/
+  (l = [10] /\ hdr_loop f ct [] pre = HDone ct (itoa n) []).
+Proof.
+  intros Hf E Hl. destruct pre as [|p0 pre'] eqn:Ep.
+  { left. destruct f; [cbn in Hf; lia|]. rewrite hdr_loop_nil. eauto. }
+  rewrite <- Ep in *. assert (Hp : pre <> []) by (subst; discriminate).
+  assert (E' : ((67 :: [111; 110; 116; 101; 110; 116; 45; 76; 101; 110; 103; 116; 104] ++ 58 :: 32 :: itoa n) ++ [13; 10]) ++ crlf
+               = pre ++ l).
+  { rewrite <- E. rewrite <- !app_assoc. reflexivity. }
+  assert (Hn10 : ~ In 10 (67 :: [111; 110; 116; 101; 110; 116; 45; 76; 101; 110; 103; 116; 104] ++ 58 :: 32 :: itoa n)).
+  { intros [H|H]; [discriminate|]. apply in_app_or in H. destruct H as [H|[H|[H|H]]];
+      [revert H; apply mem_false; reflexivity | discriminate | discriminate | exact (itoa_no_lf n H)]. }
+  destruct (hdr_loop_cut_line f ct [] 67 _ crlf pre l (eq_refl : is_crlf 67 = false) Hn10
+              E' Hl Hp Hf) as [Herr|[pre2 [E1 E2]]]; [now left|].
+  assert (Hstep : hdr_loop f ct [] pre = hdr_loop (pred f) ct (itoa n) pre2).
+  { destruct f; [lia|]. rewrite E1. cbn [pred].
+    rewrite <- (hdr_loop_clen f ct [] n pre2). f_equal. rewrite <- !app_assoc. reflexivity. }
+  rewrite Hstep.
+  assert (Hf2 : (2 <= pred f)%nat).
+  { rewrite E1 in Hf. rewrite !app_length in Hf. cbn [length] in Hf. lia. }
+  destruct (pred f) as [|[|f2]]; try lia.
+  destruct pre2 as [|x [|y pre3]].
+  - left. rewrite hdr_loop_nil. eauto.
+  - cbn in E2. inversion E2; subst. right. split; [reflexivity|]. rewrite hdr_loop_S. reflexivity.
+  - cbn in E2. inversion E2 as [[Hx Hy Hz]]. destruct pre3; cbn in Hz; [subst l; congruence | discriminate].
+Qed.
+
+(* the whole header block, cut strictly inside *)
+Lemma cut_hdr f mt n pre l :
+  usable_mime mt = true -> (length pre < f)%nat -> enc_hdr mt n = pre ++ l -> l <> [] ->
+  (exists e, hdr_loop f [] [] pre = HErr e []) \/
+  (l = [10] /\ hdr_loop f [] [] pre = HDone mt (itoa n) []).
+Proof.
+  intros Hu Hf E Hl. destruct (usable_mime_spec _ Hu) as [Ht Hlf]. unfold enc_hdr in E.
+  destruct mt as [|m0 mt'] eqn:Emt.
+  - cbn [app] in E. now apply cut_cl.
+  - rewrite <- Emt in *. assert (Hmt : mt <> []) by (subst; discriminate).
+    destruct pre as [|p0 pre'] eqn:Ep.
+    { left. destruct f; [cbn in Hf; lia|]. rewrite hdr_loop_nil. eauto. }
+    rewrite <- Ep in *. assert (Hp : pre <> []) by (subst pre; discriminate).
+    assert (E' : ((67 :: [111; 110; 116; 101; 110; 116; 45; 84; 121; 112; 101] ++ 58 :: 32 :: mt) ++ [13; 10])
+                 ++ (s_content_length_hdr ++ itoa n ++ crlf ++ crlf) = pre ++ l).
+    { rewrite <- E. rewrite <- !app_assoc. reflexivity. }
+    assert (Hn10 : ~ In 10 (67 :: [111; 110; 116; 101; 110; 116; 45; 84; 121; 112; 101] ++ 58 :: 32 :: mt)).
+    { intros [H|H]; [discriminate|]. apply in_app_or in H. destruct H as [H|[H|[H|H]]];
+        [revert H; apply mem_false; reflexivity | discriminate | discriminate | exact (Hlf H)]. }
+    destruct (hdr_loop_cut_line f [] [] 67 _ (s_content_length_hdr ++ itoa n ++ crlf ++ crlf) pre l
+                (eq_refl : is_crlf 67 = false) Hn10 E' Hl Hp Hf) as [Herr|[pre1 [E1 E2]]]; [now left|].
+    assert (Hstep : hdr_loop f [] [] pre = hdr_loop (pred f) mt [] pre1).
+    { destruct f; [lia|]. rewrite E1. cbn [pred].
+      rewrite <- (hdr_loop_ctype f [] [] mt pre1 Hmt Ht Hlf). f_equal. rewrite <- !app_assoc. reflexivity. }
+    rewrite Hstep. apply cut_cl; auto.
+    rewrite E1 in Hf. rewrite !app_length in Hf. cbn [length] in Hf. lia.
+Qed.
+
+(* one Recv on a record cut anywhere: an error and no bytes - except that a complete header of an
+   EMPTY record that lacks only its very last LF yields that (complete, empty) record *)
+Lemma recv_cut p mt r pre suf st :
+  usable_mime mt = true -> (Z.of_nat (length r) <= max_int)%Z -> st <= buf_bound ->
+  enc mt r = pre ++ suf -> suf <> [] ->
+  (exists e st', st' <= buf_bound /\ recv cfg_fixed p mt st pre = Err e st' []) \/
+  (r = [] /\ suf = [10] /\ exists st', st' <= buf_bound /\ recv cfg_fixed p mt st pre = Ok [] st' []).
+Proof.
+  intros Hu Hr Hst E Hs. unfold enc in E. apply app_eq_app in E.
+  assert (Payload : forall a, pre = enc_hdr mt (N.of_nat (length r)) ++ a -> r = a ++ suf ->
+            exists e st', st' <= buf_bound /\ recv cfg_fixed p mt st pre = Err e st' []).
+  { intros a -> Er.
+    destruct (recv_enc_hdr mt st (N.of_nat (length r)) a Hu) as [st2 [Hst2 E2]]; auto; [lia|].
+    assert (Hshort : take_n (N.of_nat (length r)) a = (a, [], false)).
+    { apply take_n_short. rewrite Er, app_length. destruct suf; [congruence|]. cbn [length]. lia. }
+    unfold body_outcome in E2. rewrite Hshort in E2.
+    destruct a; eexists _, st2; (split; [exact Hst2|]); apply recv_of_strict_err; exact E2. }
+  destruct E as [m [[E1 E2]|[E1 E2]]].
+  - destruct m as [|m0 m'] eqn:Em.
+    + left. apply (Payload []); [now rewrite app_nil_r in *|]. now cbn in E2.
+    + rewrite <- Em in *. assert (Hm : m <> []) by (subst; discriminate).
+      destruct (cut_hdr (S (length pre)) mt (N.of_nat (length r)) pre m Hu (le_n _) E1 Hm) as [[e He]|[-> Hd]].
+      * left. exists e, st. split; auto. apply recv_of_strict_err. rewrite recv_strict_unfold, He. reflexivity.
+      * destruct (itoa_spec (N.of_nat (length r))) as [Hne _].
+        destruct (recv_body_valid mt mt (itoa (N.of_nat (length r))) st [] (Z.of_N (N.of_nat (length r))))
+          as [st' [Hst' Hb]]; auto; [apply atoi_itoa; lia | lia|].
+        rewrite N2Z.id, beq_refl in Hb. unfold body_outcome in Hb.
+        destruct r as [|r0 r'].
+        -- right. split; auto. split; [now rewrite E2|]. exists st'. split; auto.
+           apply recv_of_strict_ok. rewrite recv_strict_unfold, Hd, Hb. reflexivity.
+        -- left. exists EEOF, st'. split; auto.
+           apply recv_of_strict_err. rewrite recv_strict_unfold, Hd, Hb.
+           rewrite take_n_short by (cbn [length]; lia). reflexivity.
+  - left. now apply (Payload m).
+Qed.
+
+(* what is observed after an error that consumed the rest of the stream *)
+Definition err_tail (e : errkind) : list item :=
+  IErr e :: if errkind_eqb e EEOF then [] else [IErr EEOF].
+
+(* C12 truncation, header framings: a valid frame sequence cut anywhere INSIDE a record (in its
+   header block or in its payload).  The complete records come out first; the cut record gives an
+   error and NO bytes.  Single exception, stated exactly: when the record is empty and only the
+   final LF of its header block is missing, that (complete, empty) record is returned. *)
+Theorem hdr_truncation : forall p mt rs r pre suf st,
+  usable_mime mt = true -> st <= buf_bound ->
+  Forall (fun r => (Z.of_nat (length r) <= max_int)%Z) rs -> (Z.of_nat (length r) <= max_int)%Z ->
+  enc mt r = pre ++ suf -> pre <> [] -> suf <> [] ->
+  exists tail,
+    recv_all cfg_fixed p mt st (concat (map (enc mt) rs) ++ pre) = map IRec rs ++ tail /\
+    ((exists e, tail = err_tail e) \/ (r = [] /\ suf = [10] /\ tail = [IRec []; IErr EEOF])).
+Proof.
+  intros p mt rs r pre suf st Hu Hst Hrs Hr E Hp Hs.
+  unfold recv_all, recv_all_from.
+  assert (Hfuel : exists k, S (S (length (concat (map (enc mt) rs) ++ pre))) = (length rs + S (S (S k)))%nat).
+  { assert (length rs <= length (concat (map (enc mt) rs)))%nat.
+    { clear. induction rs as [|x rs IH]; cbn; auto. rewrite app_length.
+      pose proof (enc_nonempty mt x). destruct (enc mt x); [congruence|]. cbn. lia. }
+    exists (length (concat (map (enc mt) rs)) - length rs + (length pre - 1))%nat.
+    rewrite app_length. destruct pre; [congruence|]. cbn [length]. lia. }
+  destruct Hfuel as [k ->].
+  destruct (recv_all_loop_records p mt Hu rs st (S (S (S k))) None pre Hst Hrs) as [st' [prev' [Hst' [Hp' ->]]]];
+    [congruence|].
+  destruct (recv_cut p mt r pre suf st' Hu Hr Hst' E Hs) as [[e [st2 [Hst2 Er]]]|[-> [-> [st2 [Hst2 Er]]]]].
+  - exists (err_tail e). split; [|left; eauto]. f_equal.
+    cbn [recv_all_loop]. rewrite Er. rewrite same_as_prev_not_err by assumption.
+    rewrite recv_nil. unfold err_tail. cbn [same_as_prev item_eqb].
+    destruct (errkind_eqb e EEOF); [reflexivity|]. rewrite recv_nil. cbn. reflexivity.
+  - exists [IRec []; IErr EEOF]. split; [|right; auto]. f_equal.
+    cbn [recv_all_loop]. rewrite Er. rewrite recv_nil. cbn [same_as_prev]. rewrite recv_nil. cbn. reflexivity.
+Qed.
+
+Example hdr_truncation_header_nonvacuous :
+  (* "Content-Length: 3" CR | LF CR LF abc : cut inside the header block *)
+  enc [] [97; 98; 99] = (s_content_length_hdr ++ [51; 13]) ++ ([10; 13; 10; 97; 98; 99]) /\
+  recv_all cfg_fixed Strict [] 0 (enc [] [120] ++ s_content_length_hdr ++ [51; 13]) = [IRec [120]; IErr EEOF] /\
+  (* "Content-Len" : invalid header line, then EOF *)
+  recv_all cfg_fixed Strict [] 0 [67; 111; 110; 116; 101; 110; 116; 45; 76; 101; 110] = err_tail EInvalidHeader /\
+  (* the exception: empty record, last LF missing *)
+  recv_all cfg_fixed Strict [] 0 (s_content_length_hdr ++ [48; 13; 10; 13]) = [IRec []; IErr EEOF].
+Proof. vm_compute. auto. Qed.
